@@ -706,6 +706,13 @@ def make_custom_sched(profile):
             noracle = 0; ncorr = 0; first_free_fail = None
             for cid, ops in real_guided + free:
                 io = iobs.get(cid)
+                if io is not None:
+                    used = [l for l in io if l and l[0] == 902]
+                    io = [l for l in io if not (l and l[0] == 902)]
+                    want = [902, 0 if (len(ops[0]) > 2 and ops[0][2] == 1) else 1, ops[0][3] if len(ops[0]) > 3 else 0]
+                    if used != [want] and not any(p[0] == 'harness' for p in problems):
+                        problems.append(('harness', 'the schedule harness did not use the payload / handle kind the case asks for (%s instead of %s)' % (used, want),
+                                         dict(kind='unproved', stage='tie2-sched', case=ops[:1])))
                 if io is None:
                     if not any(c[0] == cid for c in crashes):
                         problems.append(('missing', 'no implementation output for schedule %s' % cid, dict(kind='unproved', stage='tie2-sched', case=ops)))
